@@ -70,7 +70,7 @@ def make_twin(spec, s, c):
     return est
 
 
-def answers(est, T, under):
+def answers(est, T, under, inside=(), c=1.0):
     out = {}
     with warnings.catch_warnings():
         warnings.simplefilter("ignore")
@@ -89,6 +89,18 @@ def answers(est, T, under):
             out["fit"] = (np.asarray(X, dtype=float), np.asarray(Bp, dtype=float))
         except Exception as e:  # noqa
             out["fit"] = e
+        if under and len(inside):
+            # requested spaced solutions and the minimum-norm underdetermined fit (allowed capture error given in the twin's own unit)
+            try:
+                r = est.range_of_solutions(T[inside], n=3)
+                out["spaced"] = np.concatenate([np.asarray(a, dtype=float).reshape(-1, np.shape(r[0])[-1]) for a in r[2]])
+            except Exception as e:  # noqa
+                out["spaced"] = e
+            try:
+                X, Bp = est.fit_underdetermined(T[inside], l2_eps=1e-4 * c, solver="CLARABEL")
+                out["underdetermined"] = (np.asarray(X, dtype=float), np.asarray(Bp, dtype=float))
+            except Exception as e:  # noqa
+                out["underdetermined"] = e
     return out
 
 
@@ -123,7 +135,8 @@ def run_unit(unit, rec):
     base_est = make_twin(spec, 1.0, 1.0)
     rec.state(B.state_key(base_est))
     rec.trans(3)
-    base = answers(base_est, T, under)
+    inside_idx = np.flatnonzero(mg >= 1e-3 * ext)[:3] if (mg is not None and under and bounded) else np.arange(0)
+    base = answers(base_est, T, under, inside_idx, 1.0)
     smin = np.linalg.svd(Abar, compute_uv=False)[min(m, n) - 1]
     unique = n <= m
     for s, c in itertools.product(GRID, GRID):
@@ -133,7 +146,7 @@ def run_unit(unit, rec):
         rec.trans(5)
         try:
             tw = make_twin(spec, s, c)
-            got = answers(tw, T * c, under)
+            got = answers(tw, T * c, under, inside_idx, c)
         except Exception as e:  # noqa
             if in_regime:
                 _v(rec, "a", dict(query="build", regime=reg, **exc_sig(e)), "building the rescaled twin raised %r" % (e,), dict(s=s, c=c))
@@ -167,6 +180,22 @@ def run_unit(unit, rec):
                 dI = max(np.max(np.abs(g[0][inside] * s - b0[0][inside]), initial=0.0), np.max(np.abs(g[1][inside] * s - b0[1][inside]), initial=0.0))
                 if dI > 1e-7 * np.max(hi_f - lo):
                     bad = ("b", "solution ranges of the twin are not the base ranges divided by s (s=%g, c=%g, max dev %.3g)" % (s, c, dI))
+            elif q == "spaced":
+                d = float(np.max(np.abs(g * s - b0))) if g.shape == b0.shape else float("inf")
+                dev = d / float(np.max(hi_f - lo))
+                if d > 1e-7 * np.max(hi_f - lo):
+                    bad = ("b", "requested spaced solutions of the twin are not the base solutions divided by s (s=%g, c=%g, max dev %.3g)" % (s, c, d))
+            elif q == "underdetermined":
+                Xb, Pb = b0
+                Xt, Pt = g
+                dP = float(np.max(np.abs(Pt / c - Pb)))
+                dX = float(np.max(np.abs(Xt * s - Xb)))
+                dev = dP / ext
+                # both twins were allowed the same capture error (1e-4 in base units); minimum-norm solutions move by at most that error / smallest singular value
+                if dP > 4e-4:
+                    bad = ("d", "underdetermined fit: predicted captures of the twin are not the base predictions times c (s=%g, c=%g, max dev %.4g)" % (s, c, dP))
+                elif dX > 4e-4 / smin + 1e-4 * np.max(hi_f - lo):
+                    bad = ("c", "underdetermined fit: minimum-norm intensities of the twin are not the base intensities divided by s (s=%g, c=%g, max dev %.4g)" % (s, c, dX))
             else:
                 Xb, Pb = b0
                 Xt, Pt = g
